@@ -128,7 +128,7 @@ def run(prog: Program, res: Result) -> None:  # noqa: PLR0912, PLR0915
         "run-time selector, the conjunction of conditions under which it is reached, and compares the atoms with what the "
         "extractor tests. R3 checks the line-number source on both sides. R4 checks index guards in the extraction code."
     )
-    res.not_decided += ["translator-comment attachment distance", "message text normalisation / whitespace", "lookups made with non-literal operands (not extractable by definition)"]
+    res.not_decided += ["translator-comment attachment distance in lines (only the read/yield/clear discipline is checked)", "message text normalisation / whitespace", "lookups made with non-literal operands (not extractable by definition)"]
     res.trusted_base += ["gettext Translations protocol"]
     msgs = prog.mod("liquid2/messages.py")
     eft = msgs.functions.get("extract_from_template")
@@ -287,6 +287,43 @@ def run(prog: Program, res: Result) -> None:  # noqa: PLR0912, PLR0915
                 res.ok("C15.R3", f"{c.file}:{m.node.lineno} {c.name}.message", what, "lineno=lineno")
             else:
                 res.fail("C15.R3", file=c.file, line=m.node.lineno, qualname=f"{c.name}.message", construct="lineno passthrough", message="a filter extractor invents its own line number", what=what)
+
+    # ------------------------------------------------------------------ R5 translator comments
+    res.rule("C15.R5", "a translator comment is attached to the one message that follows it: each yielded MessageTuple takes its comments from `_comments` inside the loop that yields, after the staleness test, and the list is cleared right after the yield")
+    n_y = 0
+    for f in (visit, vexpr):
+        for y in ast.walk(f.node):
+            if not (isinstance(y, ast.Yield) and isinstance(y.value, ast.Call) and (dotted(y.value.func) or "") == "MessageTuple"):
+                continue
+            n_y += 1
+            kw = {k.arg: k.value for k in y.value.keywords}
+            cm = kw.get("comments")
+            loop = next((a for a in msgs.ancestors(y) if isinstance(a, (ast.For, ast.While))), None)
+            stmt = next((a for a in msgs.ancestors(y) if isinstance(a, ast.Expr)), None)
+            problems = []
+            if cm is None or "_comments" not in norm(cm):
+                # a local: it must be assigned from _comments inside the same loop
+                ok_local = False
+                if isinstance(cm, ast.Name) and loop is not None:
+                    ok_local = any(isinstance(a, ast.Assign) and norm(a.targets[0]) == cm.id and "_comments" in norm(a.value) for b in loop.body for a in ast.walk(b))
+                if not ok_local:
+                    problems.append(f"comments={norm(cm) if cm is not None else '<missing>'} is not read from _comments inside the loop that yields")
+            if loop is not None and stmt is not None and stmt in loop.body:
+                i = loop.body.index(stmt)
+                nxt = loop.body[i + 1] if i + 1 < len(loop.body) else None
+                if nxt is None or norm(nxt) != "_comments.clear()":
+                    problems.append("the yield is not followed by _comments.clear()")
+                if not any(isinstance(b, ast.If) and "_comments[-1][0] < lineno - 1" in norm(b.test) for b in loop.body[:i]):
+                    problems.append("no staleness test (`_comments[-1][0] < lineno - 1`) before the yield in the same iteration")
+            else:
+                problems.append("yield not directly inside a loop body")
+            site = f"{f.file}:{y.lineno} {f.qualname}"
+            what = f"{f.qualname}: comments attached per message"
+            if problems:
+                res.fail("C15.R5", file=f.file, line=y.lineno, qualname=f.qualname, construct=f"yield MessageTuple: {problems[0]}", message="translator comments can be attached to a message that does not immediately follow them: " + "; ".join(problems), what=what)
+            else:
+                res.ok("C15.R5", site, what, "read, yield, clear - all within one iteration")
+    res.floor("C15.R5", "MessageTuple yields", n_y, 2)
 
     # ------------------------------------------------------------------ R4 totality
     res.rule("C15.R4", "extraction never indexes a possibly-empty sequence without a dominating emptiness guard")
